@@ -97,3 +97,23 @@ Example C08_array_leaves_nonvacuous :
   array_leaves [] (AC None "a b") (Node KTuple [arr [2; 3]%Z; Node KNone []; Node (KDict ["k"]) [arr [2; 4]%Z]]) = [arr [2; 3]%Z; arr [2; 4]%Z] /\
   fst (leafmatch [] (LPyTree (LArr (AC None "a b")) None) (Node KTuple [arr [2; 3]%Z; Node (KDict ["k"]) [arr [2; 4]%Z]]) (mkps [(empty_memo, [])] None false)) = Rej.
 Proof. vm_compute. split; reflexivity. Qed.
+
+(* the snapshot / roll-back wrapper of _MetaPyTree.__instancecheck__, AS REGENERATED FROM THE SOURCE on every run
+   (gen/StorageSrc.v, interpreted by model/SL.v): whatever the tree walk cls._check does to the store (`ext` is an arbitrary
+   function), a rejected tree and ANY exception leave the frame the check started from on top -- a rejected tree binds nothing *)
+From JT Require Import model.SL gen.StorageSrc proofs.SLFacts.
+Theorem C08_pytree_rollback_wrapper_as_in_source : forall ext cls obj s,
+  wf_top s ->
+  exists args,
+    let '(r1, s1) := ext "_check" args s in
+    exists r' s', run_ext ext rollback_src "pytree_tail" [cls; obj] s = Some (r', s') /\
+      match r1 with
+      | SRExn x => r' = SRExn x /\ abs_store s' = set_top (abs_store s1) (top_frame (abs_store s))
+      | SRVal v => match pytree_ok v with
+                   | Some true => r' = SRVal v /\ s' = s1
+                   | Some false => r' = SRVal v /\ abs_store s' = set_top (abs_store s1) (top_frame (abs_store s))
+                   | None => r' = SRExn XOther
+                   end
+      end.
+Proof. exact (fun ext cls obj s W => rollback_wrappers_as_in_source ext cls obj s false W). Qed.
+Print Assumptions C08_pytree_rollback_wrapper_as_in_source.
